@@ -266,6 +266,7 @@ func getKc(ruleString string) (*base.KnowledgeContext, error) {
 }
 
 func updateIncremental(kc *base.KnowledgeContext, rb *builder.RuleBuilder) {
+	//a published container is never written: executions may be reading it
 	//copy
 	newRuleEntities := make(map[string]*base.RuleEntity, len(rb.Kc.RuleEntities))
 	for mk, mv := range rb.Kc.RuleEntities {
@@ -278,13 +279,19 @@ func updateIncremental(kc *base.KnowledgeContext, rb *builder.RuleBuilder) {
 		newSortRules[sk] = sv
 	}
 
+	//copy
+	sortRulesIndexMap := make(map[string]int, len(rb.Kc.SortRulesIndexMap))
+	for ik, iv := range rb.Kc.SortRulesIndexMap {
+		sortRulesIndexMap[ik] = iv
+	}
+
 	//kc store the new rules
 	for k, v := range kc.RuleEntities {
 
 		if vm, ok := newRuleEntities[k]; ok {
 			//repalce update
 			//search
-			index := rb.Kc.SortRulesIndexMap[v.RuleName]
+			index := sortRulesIndexMap[v.RuleName]
 			if v.Salience == vm.Salience {
 				//replace
 				newSortRules[index] = v
@@ -306,7 +313,7 @@ func updateIncremental(kc *base.KnowledgeContext, rb *builder.RuleBuilder) {
 				for k, v := range newSortRules {
 					indexMap[v.RuleName] = k
 				}
-				rb.Kc.SortRulesIndexMap = indexMap
+				sortRulesIndexMap = indexMap
 			}
 
 			newRuleEntities[k] = v
@@ -328,14 +335,17 @@ func updateIncremental(kc *base.KnowledgeContext, rb *builder.RuleBuilder) {
 			for k, v := range newSortRules {
 				indexMap[v.RuleName] = k
 			}
-			rb.Kc.SortRulesIndexMap = indexMap
+			sortRulesIndexMap = indexMap
 
 			newRuleEntities[k] = v
 		}
 	}
 
-	rb.Kc.RuleEntities = newRuleEntities
-	rb.Kc.SortRules = newSortRules
+	newKc := base.NewKnowledgeContext()
+	newKc.RuleEntities = newRuleEntities
+	newKc.SortRules = newSortRules
+	newKc.SortRulesIndexMap = sortRulesIndexMap
+	rb.Kc = newKc
 }
 
 //sync method
@@ -383,7 +393,7 @@ func (gp *GenginePool) ClearPoolRules() {
 	gp.ruleBuilder = nil
 	gp.clear = true
 	for i := 0; i < int(gp.max); i++ {
-		gp.rbSlice[i].Kc.ClearRules()
+		gp.rbSlice[i].Kc = base.NewKnowledgeContext()
 	}
 }
 
@@ -517,6 +527,15 @@ func (gp *GenginePool) GetRulesNumber() int {
 	return len(gp.ruleBuilder.Kc.RuleEntities)
 }
 
+// one execution must run one installed version of the rules, whatever updates happen meanwhile:
+// it takes the rule container once, while no update is in progress, into a rule builder of its own
+func (gp *GenginePool) snapshotRuleBuilder(tag int64) *builder.RuleBuilder {
+	gp.updateLock.Lock()
+	defer gp.updateLock.Unlock()
+	rb := gp.rbSlice[tag]
+	return &builder.RuleBuilder{Kc: rb.Kc, Dc: rb.Dc}
+}
+
 func (gp *GenginePool) prepare(reqName string, req interface{}, respName string, resp interface{}) (*gengineWrapper, error) {
 	//get gengine resource
 	gw, e := gp.getGengine()
@@ -524,7 +543,7 @@ func (gp *GenginePool) prepare(reqName string, req interface{}, respName string,
 		return nil, e
 	}
 
-	gw.rulebuilder = gp.rbSlice[gw.tag]
+	gw.rulebuilder = gp.snapshotRuleBuilder(gw.tag)
 
 	if reqName != "" && req != nil {
 		gw.rulebuilder.Dc.Add(reqName, req)
@@ -543,7 +562,7 @@ func (gp *GenginePool) prepareWithMultiInput(data map[string]interface{}) (*geng
 		return nil, e
 	}
 
-	gw.rulebuilder = gp.rbSlice[gw.tag]
+	gw.rulebuilder = gp.snapshotRuleBuilder(gw.tag)
 
 	for k, v := range data {
 		//user should not inject "" string or nil value
